@@ -121,6 +121,9 @@ def check(F, rep, tier):
     core.borrow(F, rep, "c02", "C02", "R03.6", ("not-first-hit", "walk-source", "no-membership-filter", "argv:get_commits_in_topo_order", "argv:get_all_tags_from_commit_hash", "max-by", "error-swallowed:get_latest_tag"), "the base tag is the highest valid tag on the nearest tagged ancestor")
     core.borrow(F, rep, "c02", "C02", "R03.6", ("wiring:distance", "wiring:dirty", "wiring:bumped_branch", "producer:distance", "producer:is_dirty", "producer:current_branch"), "distance, dirty and branch reach the version unchanged")
     core.borrow(F, rep, "c07", "C07", "R03.6", ("narrowing-parse:",), "SemVer rendering keeps 64-bit core numbers")
+    core.borrow(F, rep, "c05", "C05", "R03.6", ("R05.13:tag-override-keeps-detected",), "a base tag given with --tag-version is the whole base version (a final tag stays final)")
+    core.borrow(F, rep, "c04", "C04", "R03.6", ("R04.7:dirty-or-ahead",), "the dirty flag handed to the second pipeline run is the explicit flag, else tag mode and (dirty or ahead): an unknown dirty state at a clean tag does not bump")
+    core.borrow(F, rep, "c18", "C18", "R03.6", ("R18.3:",), "the Python wrapper passes 0 as a value (distance=0 is the tag itself)")
     core.borrow(F, rep, "c02", "C02", "R03.6", ("R02.7:root-test",), "the facts are read from the repository the command runs in (worktrees, submodules)")
     core.borrow(F, rep, "c01", "C01", "R03.6", ("R01.1:non-ascii-class", "R01.1:char-class"), "branch names of any alphabet are reduced to ASCII identifiers, so the output is a version the order is defined on")
     return core.finish(rep, explanation=EXPL, assumptions=ASSUME, trusted=TRUST)
